@@ -1,0 +1,14 @@
+//go:build verif
+
+package connection
+
+// VerifHook, when non-nil, is called at named schedule points. It exists only
+// in verification builds (build tag verif) and must be set before any other
+// use of the package.
+var VerifHook func(point string)
+
+func verifPoint(point string) {
+	if h := VerifHook; h != nil {
+		h(point)
+	}
+}
